@@ -121,6 +121,22 @@ def run(rep: Report) -> None:
              lambda e, K: ({e["node"]("u"): {}, e["node"]("d"): {}, e["node"]("w"): {}},
                            {(e["node"]("u"), e["node"]("d")): {K[L]: e["link"]("l")},
                             (e["node"]("d"), e["node"]("w")): {K[L]: e["link"]("l2")}}), "add_links")
+    # one-shot iterables (generators, iter(...)) are legal `Iterable` arguments
+    from ..interp import IterV
+
+    scenario("add_nodes(iter([n1,n2,n3])) - a one-shot iterator", "add_nodes",
+             lambda e: [("add_nodes", (IterV([e["node"]("n1"), e["node"]("n2"), e["node"]("n3")]),))],
+             lambda e, K: ({e["node"](n): {} for n in ("n1", "n2", "n3")}, {}), "add_nodes-iter")
+    scenario("add_links(iter([...])) - a one-shot iterator", "add_links",
+             lambda e: [("add_links", (IterV([(e["node"]("u"), e["link"]("l"), e["node"]("d")),
+                                              (e["node"]("d"), e["link"]("l2"), e["node"]("w"))]),))],
+             lambda e, K: ({e["node"]("u"): {}, e["node"]("d"): {}, e["node"]("w"): {}},
+                           {(e["node"]("u"), e["node"]("d")): {K[L]: e["link"]("l")},
+                            (e["node"]("d"), e["node"]("w")): {K[L]: e["link"]("l2")}}), "add_links-iter")
+    scenario("add_path(iter((n1,l,n2)))", "add_path",
+             lambda e: [("add_path", (IterV([e["node"]("n1"), e["link"]("l"), e["node"]("n2")]),))],
+             lambda e, K: ({e["node"]("n1"): {}, e["node"]("n2"): {}},
+                           {(e["node"]("n1"), e["node"]("n2")): {K[L]: e["link"]("l")}}), "add_path-iter")
     for meth, mk, KK in (("add_origin", "org", O), ("add_destination", "dst", Dk)):
         scenario(f"{meth}(x, n) on a missing node", meth,
                  lambda e, meth=meth, mk=mk: [(meth, (e[mk]("x"), e["node"]("n")))],
